@@ -299,7 +299,7 @@ def delete (s : EState) (o : Obj) : Out × EState :=
       let s1 := s.cacheDeletePod cur
       (.ok, { s1 with eng := { s1.eng with pods := s1.eng.pods.filter (fun q => Engine.podKey q != Engine.podKey p) } })
   | .np p =>
-    let ns := p.ns
+    let ns := if p.ns == "" then "default" else p.ns
     (.ok, ({ s with eng := { s.eng with netpols := s.eng.netpols.filter (fun q => !(q.ns == ns && q.name == p.name)) } } : EState).cacheClear)
   | .anp a =>
     let names := s.eng.anpNames.filter (· != a.name)
@@ -309,6 +309,18 @@ def delete (s : EState) (o : Obj) : Out × EState :=
     | none => (.ok, s)
     | some cur => if cur.name == b.name then (.ok, ({ s with eng := { s.eng with banp := none } } : EState).cacheClear) else (.ok, s)
   | _ => (.ok, s)
+
+/-- inserts in the given order through the insert entry point; stops at the first rejected one -/
+def insertAll (s : EState) : List Obj → Out × EState
+  | [] => (.ok, s)
+  | o :: rest =>
+    match s.insert o with
+    | (.err e, s') => (.err e, s')
+    | (_, s') => insertAll s' rest
+
+/-- `SetResources`: the namespaces, then the policies, then the pods -/
+def setResources (s : EState) (nps : List NetPol) (pods : List Pod) (nss : List NsObj) : Out × EState :=
+  s.insertAll (nss.map .ns ++ nps.map .np ++ pods.map .pod)
 
 end EState
 end Netpol
